@@ -197,7 +197,7 @@ theorem filterPtr_eq (content result : J) (q : Ptr) (part : J) (hq : q ≠ []) (
     | nil => exact absurd rfl hq
     | cons _ _ => simpa [opAdd] using this
 
-theorem objPath_of_mem (ps : List (List String)) (p : List String) (hp : p ∈ ps) (d : J) (hs : SpineObj ps d)
+theorem objPath_of_mem (ps : List (List String)) (p : List String) (hp : p ∈ ps) (d : J) (hs : SpineNoArr ps d)
     (q : Ptr) (hm : matchPtr p q = true) (hg : getP q d ≠ none) : ObjPath q d := by
   intro a c hqe hc
   subst hqe
@@ -210,12 +210,13 @@ theorem objPath_of_mem (ps : List (List String)) (p : List String) (hp : p ∈ p
   cases hga : getP a d with
   | none => simp [hga] at hg
   | some w =>
-    have := hs p hp a hla (prefMatch_of_matchPtr p a c hm) w hga
+    have := isObj_of_getP_below c w hc (by simpa [hga] using hg)
+      (hs p hp a hla (prefMatch_of_matchPtr p a c hm) w hga)
     cases w <;> simp [J.isObj] at this
     exact ⟨_, hga⟩
 
 theorem filter_ptrs (ps : List (List String)) (p : List String) (hp : p ∈ ps) (hpne : p ≠ []) (d : J)
-    (hw : d.wf = true) (hs : SpineObj ps d) (L : List Ptr)
+    (hw : d.wf = true) (hs : SpineNoArr ps d) (L : List Ptr)
     (hL : ∀ q ∈ L, matchPtr p q = true ∧ getP q d ≠ none) (result : J) (hr : isSub result d = true) :
     ∃ r, L.foldlM (filterPtr d) result = .ok r ∧ isSub r d = true := by
   induction L generalizing result with
@@ -238,7 +239,7 @@ theorem filter_ptrs (ps : List (List String)) (p : List String) (hp : p ∈ ps) 
 
 theorem filters_sub (d : J) (F : List String) (ps : List (List String))
     (hF : ∀ t ∈ F, pyStrip t = "" ∨ ∃ p ∈ ps, p ≠ [] ∧ parsePointer (pyStrip t) = .ok p)
-    (hw : d.wf = true) (hs : SpineObj ps d) (hobj : d.isObj = true) :
+    (hw : d.wf = true) (hs : SpineNoArr ps d) (hobj : d.isObj = true) :
     ∃ r, applyAclFilters d F = .ok r ∧ isSub r d = true := by
   have gen : ∀ (F : List String), (∀ t ∈ F, pyStrip t = "" ∨ ∃ p ∈ ps, p ≠ [] ∧ parsePointer (pyStrip t) = .ok p) →
       ∀ result, isSub result d = true → ∃ r, F.foldlM (filterStep d) result = .ok r ∧ isSub r d = true := by
@@ -254,7 +255,7 @@ theorem filters_sub (d : J) (F : List String) (ps : List (List String))
       · by_cases he : pyStrip t = ""
         · obtain ⟨r, g1, g2⟩ := hrest result hr
           exact ⟨r, by rw [List.foldlM_cons]; simp only [filterStep, he, if_true]; exact g1, g2⟩
-        · have hmem := fun q => mem_resolveRec p d q hw (spine_local ps d hs p hp)
+        · have hmem := fun q => mem_resolveRec p d q hw
           obtain ⟨r1, f1, f2⟩ := filter_ptrs ps p hp hpne d hw hs (resolveRec p d) (fun q hq => (hmem q).1 hq) result hr
           obtain ⟨r, g1, g2⟩ := hrest r1 f2
           refine ⟨r, ?_, g2⟩
@@ -277,8 +278,9 @@ theorem fragment_step_sub (PS : List (List String)) (cfg f : J) (acl : List Stri
     (hparse : ParsedAcl acl L) (hL : ∀ p ∈ L, p ∈ PS ∧ p ≠ [])
     (hwc : cfg.wf = true) (hwf : f.wf = true) (hsc : SpineObj PS cfg) (hsf : SpineObj PS f) :
     ∃ r, applyFragment cfg f acl = .ok r ∧ r.wf = true ∧ SpineObj PS r ∧ InsideEq L r f ∧ OutsideEq L r cfg := by
-  obtain ⟨r, h1, h2, h3, h4, h5, _, _⟩ := frag_fold PS f hwf hsf L hL cfg hwc hsc
-  refine ⟨r, ?_, h2, h3, ?_, fun q ho => h5 q ho⟩
+  obtain ⟨r, h1, h2, h3, h4, h5, _, _⟩ :=
+    frag_fold PS f hwf (spineNoArr_of_spineObj PS f hsf) L hL cfg hwc (spineRel_of_spineObj PS f cfg hsc)
+  refine ⟨r, ?_, h2, spineObj_of_spineRel PS f r h3 hsf, ?_, fun q ho => h5 q ho⟩
   · rw [applyFragment_eq f acl L cfg hparse (fun p hp => (hL p hp).2)]; exact h1
   · intro p hp q hc
     obtain ⟨a, c, rfl, hm⟩ := covers_split p q hc
